@@ -8,7 +8,7 @@ from harness import pipeline as PL, solver as S
 
 SPEC = {
     "gen": ["Rotations", "GetHkl", "Crystal"],
-    "modules": ["DiffcalcProofs.Props.C13"],
+    "modules": ["DiffcalcProofs.Props.C13", "DiffcalcProofs.Props.C04"],
     "theorems": {"DiffcalcProofs.Props.C13": [
         "C13.getHkl_scale_cell", "C13.reciprocalB_scale", "C13.getHkl_order", "C13.anglesEquivalent_periodic", "C13.getHkl_remount"],
         "DiffcalcProofs.Props.C04": ["C04.getHkl_periodic"]},
